@@ -67,7 +67,30 @@ def _approx(ctx, args, kw):
     return abs(a - b) <= rel * max(abs(a), abs(b), 1e-300)
 
 
+def _mathfn(np_name):
+    def f(ctx, args, kw):
+        import numpy as np
+        from .intrinsics import EXT_MODELS, _key
+        fn = getattr(np, np_name)
+        if isinstance(args[0], Sym):
+            return EXT_MODELS[_key(fn)](ctx, args, kw)
+        return float(fn(args[0]))
+    return f
+
+
+def _pow10(ctx, args, kw):
+    import numpy as np
+    from .intrinsics import m_power
+    if isinstance(args[0], Sym):
+        return m_power(ctx, [10, args[0]], kw)
+    return float(np.power(10.0, args[0]))
+
+
 def install_spec_helpers(g):
+    g["log10"] = SpecFn("log10", _mathfn("log10"))
+    g["ln"] = SpecFn("ln", _mathfn("log"))
+    g["exp"] = SpecFn("exp", _mathfn("exp"))
+    g["pow10"] = SpecFn("pow10", _pow10)
     g["implies"] = SpecFn("implies", _implies)
     g["iff"] = SpecFn("iff", _iff)
     g["ite"] = SpecFn("ite", _ite)
@@ -104,5 +127,7 @@ def n_approx(a, b, rel=1e-9):
         return a == b
 
 
-NATIVE_HELPERS = {"implies": n_implies, "iff": n_iff, "ite": n_ite, "same_object": n_same_object,
+import math as _math
+
+NATIVE_HELPERS = {"log10": _math.log10, "ln": _math.log, "exp": _math.exp, "pow10": lambda x: 10.0 ** x,"implies": n_implies, "iff": n_iff, "ite": n_ite, "same_object": n_same_object,
                   "typename": n_typename, "approx": n_approx}
